@@ -15,6 +15,35 @@ def run_tree(rep, wd, binpath, alphabet, maxlen, policies, label, trees=None):
     return trs, list(zip(cases, results))
 
 
+def add_tree(rep, wd, binpath, alphabet, policies, label, tree, trs, rows):
+    """run one more tree (listed vectors) and append it; returns its rows"""
+    trs_, rows_ = run_tree(rep, wd, binpath, alphabet, 1, policies, label, trees=[tree])
+    off = len(trs)
+    trs.extend(trs_)
+    for c, r in rows_:
+        c["ti"] += off
+        c["node_policy"] = T.effective_policy(tree, c["path"], c["policy"])
+    rows.extend(rows_)
+    return rows_
+
+
+def rerun(rep, wd, binpath, trs, rows_, pre_of, clauses, what):
+    """the same cases on an application object that served other requests before (pre_of(case) = the earlier argument vectors)"""
+    again = [(c, pre_of(c)) for c, r in rows_ if not r.get("skipped") and c["kind"] != "noaction" and not c.get("unclaimed")]
+    again = [(c, pre) for c, pre in again if pre is not None]
+    res = core.run_harness(binpath, "tree", [T.harness_case(trs[c["ti"]], c["policy"], c["argv"], pre) for c, pre in again], wd)
+    for (c, pre), r in zip(again, res):
+        rep.cov["evaluations"] += 1
+        if r.get("skipped"):
+            continue
+        js = [j for j in T.judge(c, r) if j[0] in clauses]
+        if js:
+            o = replay_obj(trs, c)
+            o["harness_case"] = T.harness_case(trs[c["ti"]], c["policy"], c["argv"], pre)
+            rep.violation("%s %s: " % (what, pre) + describe(trs, c) + ": " + "; ".join(t for _, t in js), o)
+    return len(again)
+
+
 def describe(trs, c):
     return "tree %d policy=%s argv=%s (specification: %s at %r)" % (c["ti"], c["policy"], c["argv"], c["kind"], c["path"])
 
